@@ -184,6 +184,9 @@ impl Property for C11 {
         });
         Box::new(ex.chain(tags).chain(crate::props::c02::C02.enumerate(quick)))
     }
+    fn fuzz_plans(&self) -> Vec<(&'static str, u64)> {
+        vec![("wire_raw", 30000), ("wire_struct", 15000)]
+    }
     fn gen(&self, c: &mut Choices) -> Case {
         match c.below(5) {
             0 | 1 => {
